@@ -739,7 +739,10 @@ func (v *V) equal(e *Env, a, b Val) string {
 		return fmt.Sprintf("(fp.eq %s %s)", toFP(a.S, floatBits(t)), toFP(b.S, floatBits(t)))
 	}
 	if _, ok := t.Underlying().(*types.Slice); ok {
-		// only comparison with nil is legal in Go
+		// only comparison with nil is legal in Go; in specs s == t is equality of slice headers
+		if e.spec && !isNilSlice(v, a.S) && !isNilSlice(v, b.S) {
+			return eq(a.S, b.S)
+		}
 		other := a
 		if isNilSlice(v, a.S) {
 			other = b
